@@ -57,7 +57,22 @@ MANIFEST = dict(
          '(corr_attrs). '
          'The kernel interpreter and the transliteration are themselves tied to CPython: fixed and random __exit__ bodies '
          'of the subset run against mock objects under result oracles and must perform the same calls and end the same '
-         'way as walk (exit_tree ..).',
+         'way as walk (exit_tree ..). '
+         'Round 4 (SM/AtomicRetry.v): what a refused operation raises is a run class (an OSError that is no named '
+         'subclass, each of 8 named subclasses — PermissionError, FileExistsError, IsADirectoryError, ... —, '
+         'KeyboardInterrupt); with_class r o specialises the handler classes of __exit__ to that class, so every theorem '
+         'about objects holds per class and all 34 instance obligations are discharged for every class. The statement '
+         'language has for-range loops with break / continue / else; a retried rename gives a chain of rename nodes; '
+         'collapse merges refused attempts and a proved stutter simulation transfers the theorems to protocols with '
+         'retries (c12_retry_*, c12_property = the whole property in one statement); proto_outcome_ok => the with '
+         'statement returns normally exactly when a rename succeeded (any protocol); the family with a retried rename is '
+         'good iff exhausting the attempts takes the failure path, the three other continuations refuted for every number '
+         'of attempts (the unconditional commit after the loop is seeded c12_6). The statements of make_tempfile before '
+         'mkdir are a generated program too: entry_inert (they touch nothing whenever no temp file is open; the shape of '
+         'seeded c12_5 is refuted). Executed: every operation x 14 exception classes (4 errno values of plain OSError, '
+         '8 subclasses, FileNotFoundError, KeyboardInterrupt) x persistent / refused 1, 2, 3, 5 times, single writers, '
+         'BSP.save and reuse histories, compared with the tree machine of the class; reuse histories of one writer '
+         'interleaved with an open second writer at every pair of operation boundaries (oracle only).',
     note='Trusted: Coq kernel + vm_compute, translate/c12_atomic.py (transliteration only: the symbolic execution is in '
          'the kernel; both are tied by the executed correspondences, the CPython one by sampling), the interposer in checks/c12.py (FileIO subclass + patched '
          'io.open/os.*), POSIX rename atomicity and O_EXCL (modelled, not verified), page cache surviving a process kill '
@@ -70,7 +85,14 @@ MANIFEST = dict(
          'object facts (_object_facts in the translator) are read, not proved; they are tied by the executed attribute '
          'correspondence. Attribute values outside None/True/False/handle/temp name/destination/exception are "unknown" '
          '(reading one is outside the model: obligation exit_no_unmodelled_step). make_tempfile called while a temp file '
-         'is open (nested entry: "not reentrant") is not covered.',
+         'is open (nested entry: "not reentrant") is not covered. Run classes: all refused operations of one run raise '
+         'the same class (mixed classes in one run are not modelled; when no handler names a subclass the trees are equal '
+         'for all classes and the restriction is void). InterruptedError / BlockingIOError are not injected into raw writes '
+         '(io.BufferedWriter gives them a meaning of its own); a persistent FileExistsError at open is not injected (the '
+         'unbounded temp-name loop cannot end). The reuse theorems need proto_ok of the uncollapsed protocol: histories of '
+         'an object WITH a retry loop are executed and compared, not proved. The reuse x concurrent-writer product is '
+         'oracle only. Loops other than `for <name> in range(<literal>)`, a loop variable that is read, `raise <OSError '
+         'subclass>(..)` fail closed.',
 )
 
 IMPORTS = ['SV.SM.AtomicWriter', 'SV.SM.AtomicExit', 'SV.SM.AtomicReuse', 'SV.SM.AtomicRetry', 'SV.Gen.AtomicWriter_gen', 'Coq.Lists.List', 'Coq.Bool.Bool',
@@ -1002,7 +1024,7 @@ def _class_runs(ck: Any, sc: dict, fresh: Callable[[str], str], ops0: list[dict]
         return
     bsp = bool(sc.get('bsp'))
     wks = [o['k'] for o in ops0 if o['op'] == 'write']
-    keepw = set(wks[:1] + wks[-1:]) if not is_big(ck) else set(wks[:2] + wks[-2:] + wks[len(wks) // 2:len(wks) // 2 + 1])
+    keepw = set(wks[:1] + wks[-1:]) if (bsp or not is_big(ck)) else set(wks[:2] + wks[-2:] + wks[len(wks) // 2:len(wks) // 2 + 1])
     names = list(FAULT_CLASSES)
     if bsp and not is_big(ck):
         names = ['OSError:ENOSPC', 'PermissionError:EACCES', 'IsADirectoryError', 'FileNotFoundError', 'KeyboardInterrupt']
@@ -1500,7 +1522,7 @@ def history_campaign(ck: Ck, do_model: bool) -> None:
             judge(r, o['k'], f'OSError at operation {o["k"]} ({op_label(o)}) of the history')
         # ---- round 4: an exception of a named class / KeyboardInterrupt, persistently, at every operation that is no raw
         # write (the same operation of the later uses is refused as well: a failed use follows a failed use)
-        if nuse >= 2 and (hi % 4 == 0 or escalated(ck)):
+        if nuse >= 2 and (hi % 4 == 0 or ck.thorough):
             for o in ops0:
                 if not o['inj'] or o['op'] == 'write':
                     continue
@@ -2477,6 +2499,50 @@ def interp_correspondence(ck: Ck) -> None:
         ck.explain('correspondence:exit-interpreter')
 
 
+def class_table_correspondence(ck: Ck) -> None:
+    """The table behind the run classes — which handler class catches which exception in flight when the refused
+    operations of a run raise a given class (catches (spec_class r k) e in SM/AtomicRetry.v, the class terms written by
+    translate/c12_atomic.py) — against CPython's own exception hierarchy, EXHAUSTIVELY: every class name the translator
+    accepts in a handler x every run class x every exception in flight (the refused operation's, FileNotFoundError,
+    AttributeError / RuntimeError for "anything else")."""
+    import ast as _ast
+    T = c12_atomic
+    names = sorted(T.CLASS_ALL | T.CLASS_EXC | T.CLASS_OSERROR | T.CLASS_NOENT | set(T.SUBCLASSES) | {'KeyboardInterrupt'} | T.CLASS_NEVER)
+    tr = T._ExitTr(_ast.parse('def __exit__(self, a, b, c): pass').body[0])
+    runs: list[tuple[str, BaseException]] = [('RGeneric', OSError(errno.EIO, 'x')), ('RKbd', KeyboardInterrupt())]
+    for i, n in enumerate(T.SUBCLASSES):
+        runs.append((f'(RSub {i})', getattr(builtins, n)()))
+    rows, truth, what = [], [], []
+    for h in names + ['']:
+        k = tr.classes(_ast.Name(id=h, ctx=_ast.Load()) if h else None)      # '' = a bare `except:`
+        hcls = getattr(builtins, h) if h else BaseException
+        for rc, inst in runs:
+            rows.append(f'map (fun e => existsb (fun k => catches (spec_class {rc} k) e) {k}) [XOSErr; XNoEntErr; XOther]')
+            truth.append([isinstance(inst, hcls), isinstance(FileNotFoundError(), hcls),
+                          isinstance(AttributeError(), hcls)])
+            if isinstance(AttributeError(), hcls) != isinstance(RuntimeError(), hcls):
+                truth[-1][2] = None       # the model has one "anything else": the two must agree
+            what.append((h or '<bare except>', rc))
+    vals = ck.coq_eval(IMPORTS, [coq_list(rows)], name='aw_class_table', preamble=PRE)
+    bad: list[dict] = []
+    if vals is None:
+        bad.append({'why': 'model could not be evaluated'})
+    else:
+        got = [[x.strip() == 'true' for x in row.strip('[] ').split(';')] for row in vals[0].strip().strip('[]').split('];')]
+        if len(got) != len(truth):
+            bad.append({'why': f'{len(got)} rows for {len(truth)} questions'})
+        for g, t, w in zip(got, truth, what):
+            ck.count('class_table_cells', 3)
+            if g != t:
+                bad.append({'handler': w[0], 'run_class': w[1], 'model [refused; FileNotFoundError; other]': g, 'cpython': t})
+    ck.obligation('correspondence:exception-classes', not bad,
+                  f'{len(truth)} (handler class, run class) pairs x 3 exceptions in flight, catches (spec_class r k) e vs '
+                  f'isinstance in CPython (exhaustive over the translator\'s tables): {len(bad)} disagreements')
+    if bad:
+        ck.tie_broken.append('the exception-class table of SM/AtomicRetry.v / the translator disagrees with CPython')
+        ck.extra['class_table_disagreements'] = bad[:8]
+
+
 class _TheoremsInBackground:
     """What ck.theorems does (Print Assumptions of every theorem of Props/C12.v: one coqc process, 8-40 s on a loaded
     machine), started as a separate PROCESS right after the build and collected at the end of the run, so that it costs
@@ -2542,9 +2608,19 @@ def run(ck: Ck) -> None:
                'A case is distinct by (scenario kind, buffer size, kill/fault index), by the full schedule, by '
                '(pair, schedule, fault index), or by (history, fault/kill index, use); all are non-trivial (each changes where '
                'the protocol is interrupted). '
+               'Exception classes (round 4): in 10 scenarios (7 plain, 3 BSP.save) every injectable operation (of the raw writes: '
+               'the first and the last) x 14 exception classes x {refused for ever, refused 1 / 2 / 3 / 5 times then accepted '
+               '(run only when the persistent run was refused more often than that: otherwise it is the same run)}; in every '
+               'fourth reuse history every non-write operation x {PermissionError, KeyboardInterrupt} x {for ever, twice}; '
+               'distinct by (scenario, operation, class, times). Product: writer A = one object used for the words SS, BS, FS '
+               '(F: the rename of that use is refused; + SB, SSS, FB, SFS and a text writer when escalated), writer B a '
+               'single-use writer of another file, every pair (k1, k2) of completed operations reached as A^k1 B^k2 and for '
+               'every other pair as B^k2 A^k1; distinct by the executed schedule. '
                'Interpreter tie: program = random __exit__ body of the translator subset (2-5 top-level statements, depth <= 3, '
-               '<= 5 file-system calls) x {body returned, body raised} x 10 result oracles; distinct by (program, exc, oracle), '
-               'non-trivial when at least one call is performed.')
+               '<= 5 file-system calls, for-range loops with break / continue / else, handlers naming OSError subclasses / '
+               'KeyboardInterrupt / Exception / BaseException) x {body returned, body raised} x 10 result oracles for the '
+               'generic class + 2 oracles for each of PermissionError / IsADirectoryError (when a handler names it) / '
+               'KeyboardInterrupt; distinct by (program, run class, exc, oracle), non-trivial when at least one call is performed.')
     ck.trusted.append('hand-written machines SM/AtomicWriter.v (flags) and SM/AtomicExit.v (decision trees + interpreter of '
                       'the generated __exit__ program), tied by the proved refinement, by the kernel-computed obligations on '
                       'the generated program and by the executed crash/fault/interleaving correspondence on every run; '
@@ -2552,7 +2628,12 @@ def run(ck: Ck) -> None:
                       '(translate/c12_atomic._object_facts) tied by the executed history and attribute correspondences')
     ck.trusted.append('checks/c12.py interposer: io.FileIO subclass under the BufferedWriter/TextIOWrapper, patched io.open / '
                       'os.mkdir / os.unlink / os.replace; POSIX rename atomicity and O_EXCL are assumed, not verified')
+    ck.trusted.append('SM/AtomicRetry.v: spec_stmt (which handler classes catch an exception of which run class) is a '
+                      'hand-written table, tied to CPython by the interpreter correspondence run per class (mocks raise '
+                      'PermissionError / IsADirectoryError / KeyboardInterrupt) and by the executed class-fault runs')
     ck.assumptions += [
+        'all refused operations of one run raise the same exception class (run class); a refused rename / unlink leaves '
+        'the directory unchanged (what makes a retry a stutter step)',
         'a killed process loses its user-space buffers but the kernel keeps completed write(2)/rename(2) effects '
         '(no power-loss durability is claimed: the code never calls fsync)',
         'os.replace is atomic and the temp file is in the same directory as the destination (aw_tmp_sibling obligation)',
@@ -2658,6 +2739,7 @@ def _campaigns(ck: Ck, built: bool, background: '_TheoremsInBackground | None' =
     stage['translate+build+obligations'] = round(time.time() - ck.t0, 1)
     t1 = time.time()
     if built:
+        class_table_correspondence(ck)
         interp_correspondence(ck)
     stage['interpreter'] = round(time.time() - t1, 1)
     t1 = time.time()
